@@ -1,0 +1,96 @@
+//go:build verif
+
+package history
+
+// History requests (properties C06, C03): a request is answered from the store only after the key was authorized
+// for LOADING that channel; the query carries the key's contract and the parsed channel (never another tenant's),
+// the time window and the limit the request asked for (limit 1 when none was given) and the continuation id of
+// the request; what the store returns is handed back message by message, in the same order, id / channel /
+// payload unchanged. The authorizer, the store, channel parsing and json are recorded calls.
+
+import (
+	"github.com/emitter-io/emitter/internal/errors"
+	"github.com/emitter-io/emitter/internal/message"
+	"github.com/emitter-io/emitter/internal/provider/contract"
+	"github.com/emitter-io/emitter/internal/security"
+	"github.com/emitter-io/emitter/internal/service"
+	vs "github.com/emitter-io/emitter/internal/verifspec"
+)
+
+// @ assume github.com/emitter-io/emitter/internal/security.ParseChannel iface post=post_ParseChannel
+func post_ParseChannel(res0 *security.Channel) bool { return res0 != nil }
+
+// @ assume (github.com/emitter-io/emitter/internal/service.Authorizer).Authorize iface post=post_Authorize
+func post_Authorize(res0 contract.Contract, res1 security.Key, res2 bool) bool {
+	return !res2 || (res0 != nil && len(res1) == 24)
+}
+
+// @ assume (*github.com/emitter-io/emitter/internal/security.Channel).Last iface
+// @ assume (*github.com/emitter-io/emitter/internal/security.Channel).Window iface
+// @ assume github.com/emitter-io/emitter/internal/message.NewSsid iface
+// @ assume github.com/kelindar/binary.ToString iface post=post_binary_ToString
+func post_binary_ToString(b *[]byte, res0 string) bool { // the zero-copy cast: same length, same bytes (modelled as a copy)
+	if b == nil {
+		return false
+	}
+	bb := *b
+	return len(res0) == len(bb) && vs.Forall(0, len(res0), func(i int) bool { return res0[i] == bb[i] })
+}
+
+func pre_history(s *Service, c service.Conn) bool { return s != nil && s.auth != nil && s.store != nil }
+
+// @ verify (*Service).OnRequest pre=pre_history post=post_history_refused,post_history_query,post_history_answer props=C06,C03
+// @ loop (*Service).OnRequest 0 unroll 2 bounded
+func post_history_refused(s *Service, res0 service.Response, res1 bool) bool {
+	// nothing is read from the store unless the key was authorized for AllowLoad on the parsed channel
+	q := vs.TraceCount(".Query")
+	a := vs.TraceFind("Authorize")
+	if q == 0 {
+		return true
+	}
+	return q == 1 && a >= 0 && a < vs.TraceFind(".Query") && vs.TraceCount("Authorize") == 1 && vs.TraceRet[bool](a, 2) &&
+		vs.TraceArg[uint8](a, 2) == security.AllowLoad &&
+		vs.TraceArg[*security.Channel](a, 1) == vs.TraceRet[*security.Channel](vs.TraceFind("ParseChannel"), 0)
+}
+func post_history_query(s *Service, res0 service.Response, res1 bool) bool {
+	q := vs.TraceFind(".Query")
+	if q < 0 { // no query: the request was refused
+		return !res1 && (res0 == service.Response(errors.ErrBadRequest) || res0 == service.Response(errors.ErrUnauthorized))
+	}
+	a, n, w, l := vs.TraceFind("Authorize"), vs.TraceFind("NewSsid"), vs.TraceFind("Channel).Window"), vs.TraceFind("Channel).Last")
+	if n < 0 || w < 0 || l < 0 || n > q || w > q || l > q {
+		return false
+	}
+	key := vs.TraceRet[security.Key](a, 1)
+	ch := vs.TraceRet[*security.Channel](vs.TraceFind("ParseChannel"), 0)
+	limit := int64(1)
+	if vs.TraceRet[bool](l, 1) {
+		limit = vs.TraceRet[int64](l, 0)
+	}
+	got := vs.TraceArg[message.Ssid](q, 1)
+	want := vs.TraceRet[message.Ssid](n, 0)
+	// the ssid queried is the one built from THIS key's contract and the parsed channel; window and limit as asked
+	return vs.TraceArg[uint32](n, 0) == key.Contract() && len(vs.TraceArg[[]uint32](n, 1)) == len(ch.Query) &&
+		len(got) == len(want) && vs.Forall(0, len(got), func(i int) bool { return got[i] == want[i] }) &&
+		vs.TraceArg[int](q, 5) == int(limit)
+}
+func post_history_answer(s *Service, res0 service.Response, res1 bool) bool {
+	q := vs.TraceFind(".Query")
+	if q < 0 {
+		return true
+	}
+	if vs.TraceRet[error](q, 1) != nil {
+		return !res1 && res0 == service.Response(errors.ErrServerError)
+	}
+	msgs := vs.TraceRet[message.Frame](q, 0)
+	r, ok := res0.(*Response)
+	if !res1 || !ok || r == nil || len(r.Messages) != len(msgs) || len(msgs) > 2 {
+		return false
+	}
+	return (len(msgs) < 1 || specSameMsg(r.Messages[0], msgs[0])) && (len(msgs) < 2 || specSameMsg(r.Messages[1], msgs[1]))
+}
+func specSameMsg(out Message, m message.Message) bool {
+	return len(out.ID) == len(m.ID) && (len(m.ID) == 0 || vs.OffsetIn(out.ID, m.ID) == 0) &&
+		len(out.Payload) == len(m.Payload) && (len(m.Payload) == 0 || vs.OffsetIn(out.Payload, m.Payload) == 0) &&
+		len(out.Channel) == len(m.Channel) && vs.Forall(0, len(m.Channel), func(i int) bool { return out.Channel[i] == m.Channel[i] })
+}
